@@ -399,4 +399,66 @@ theorem handler_regenerated_from_source (timeout : Int) (resp0 : Option Nat) :
   unfold handlerIR handlerG
   by_cases h : timeout > 0 <;> simp [h]
 
+/-! ### time: the pool timeout per attempt, and the client-visible wait (round 3)
+
+`dur k` = how long the backend takes to answer the `k`-th call (`none` = never). With a pool timeout
+`t > 0` the handler closure hands `doHandle` a context with that deadline (`handler_regenerated_from_source`),
+*inside* the retry loop (`handle_regenerated_from_source`), so every attempt returns after `min (dur k) t`
+(trusted: the transport honours the context deadline). A cancelled back-off (`stop`) returns at once. -/
+
+def attemptTime (timeout : Nat) (dur : Nat → Option Nat) (k : Nat) : Nat := min ((dur k).getD timeout) timeout
+
+def callCount : List EventG → Nat
+  | [] => 0
+  | .call _ :: t => 1 + callCount t
+  | _ :: t => callCount t
+
+/-- wall-clock time of one run of the wrapped handler, ns -/
+def elapsed (timeout : Nat) (dur : Nat → Option Nat) : List EventG → Int
+  | [] => 0
+  | .call k :: t => (attemptTime timeout dur k : Int) + elapsed timeout dur t
+  | .sleep _ d :: t => d + elapsed timeout dur t
+  | .stop _ :: t => elapsed timeout dur t
+
+theorem attemptTime_le (timeout : Nat) (dur : Nat → Option Nat) (k : Nat) : attemptTime timeout dur k ≤ timeout :=
+  Nat.min_le_right _ _
+
+theorem elapsed_le (timeout : Nat) (dur : Nat → Option Nat) : ∀ evs : List EventG,
+    elapsed timeout dur evs ≤ (callCount evs * timeout : Nat) + sleepTotal evs
+  | [] => by simp [elapsed, callCount, sleepTotal]
+  | .call k :: t => by
+    have := elapsed_le timeout dur t
+    have h := attemptTime_le timeout dur k
+    simp only [elapsed, callCount, sleepTotal]
+    have : ((1 + callCount t) * timeout : Nat) = timeout + callCount t * timeout := by
+      rw [Nat.add_mul, Nat.one_mul]
+    rw [this]; push_cast; omega
+  | .sleep _ d :: t => by
+    have := elapsed_le timeout dur t
+    simp only [elapsed, callCount, sleepTotal]; omega
+  | .stop _ :: t => by
+    have := elapsed_le timeout dur t
+    simp only [elapsed, callCount, sleepTotal]; omega
+
+theorem wrapLoopG_callCount {F : Type} (A : FloatOps F) (h : Nat → Option Nat → Option SPErr × Option Nat)
+    (expo : Bool) (f : F) (env : EnvG) : ∀ (fuel k : Nat) (base : F) (prev : Option SPErr × Option Nat),
+    callCount (wrapLoopG A h expo f env fuel k base prev).events ≤ fuel := by
+  intro fuel
+  induction fuel with
+  | zero => intro k base prev; simp [wrapLoopG, callCount]
+  | succ n ih =>
+    intro k base prev
+    unfold wrapLoopG
+    cases hh : h k prev.2 with
+    | mk e r =>
+      cases e with
+      | none => simp [callCount]
+      | some e =>
+        by_cases hk : env.done k = true
+        · simp [hk, callCount]
+        · simp only [Bool.not_eq_true] at hk
+          have := ih (k + 1) (nextBaseG A expo base) (some e, r)
+          simp only [hk, Bool.false_eq_true, if_false, callCount]
+          omega
+
 end EgVerif.Retry
